@@ -287,7 +287,10 @@ def handle (req : Json) : Except String Json := do
         (inters ++ m.derivs.map fun d => (d.1, d.2.2)).map fun a => (a.1, Impl.sortNames (π a.1 a.2))
       let topoAgree := staticOrder (addsOf false) == staticOrderRef (addsOf false) &&
         staticOrder (addsOf true) == staticOrderRef (addsOf true)
-      pure (Json.mkObj ([("ok", Json.bool true), ("layout", layJ), ("topo_ref_agrees", Json.bool topoAgree),
+      pure (Json.mkObj ([("ok", Json.bool true), ("layout", layJ), ("topo_ref_agrees", Json.bool topoAgree), ("wf", Json.bool (checkModelWF m)),
+        ("gen_rhs_valid", Json.bool (match lay, Impl.genRhs m π false, Impl.genRhs m π true with
+          | some L, some p0, some p1 => checkRhs m L p0 && checkRhs m L p1
+          | _, _, _ => true)),
         ("sorted_removed", match Impl.sortedAssignments m π true with | some l => jstrs l | none => Json.null),
         ("mentioned", jstrs (Impl.mentioned m))] ++ modelJ ld))
   | "gen" =>
